@@ -48,6 +48,10 @@ def _unknown_sets(m: S.SearchModel, guard: Formula, variables: list[str]) -> lis
 def run_search(repo: Repo, res: Result) -> None:
     ms = S.models(repo)
     n = 0
+    # a sub-module search that does not walk the graph at all but tests names
+    for f in S.findings(repo):
+        n += 1
+        res.add("C01.S", repo.key(f.fi, stmt_of(f.node)) + " [sub modules from hierarchy edges]", False, f.detail, where(f.fi, f.node), kind="structural")
     for m in ms:
         fi = m.fi
         # orientation of the hierarchy test
